@@ -434,7 +434,7 @@ func main() {
 	dir := r.TempDir("c14")
 	defer os.RemoveAll(dir)
 	cfg := ledger.Config{MinSteps: 20, MaxSteps: r.N(60, 150), Order: true}
-	r.Parallel("history", r.N(60, 1500), evid.Workers(), func(i int, cs int64) {
+	r.Parallel("history", r.N(300, 3000), evid.Workers(), func(i int, cs int64) {
 		res := ledger.RunHistory(cfg, cs, dir)
 		ledger.Record(r, res, "history", cs, res.Stats["unmined-dependency-edges-checked"] > 0)
 	})
